@@ -116,7 +116,7 @@ Section Checksum.
   Qed.
 End Checksum.
 
-(* ---------------------------------------------------------------- grouping *)
+(* ---------------------------------------------------------------- grouping and sub-batching *)
 Lemma add_group_In g k gs k' :
   In k' (flat_map snd (add_group g k gs)) <-> k' = k \/ In k' (flat_map snd gs).
 Proof.
@@ -131,16 +131,74 @@ Proof.
   induction keys as [|k0 r IH]; cbn [group_keys]; [cbn; tauto|].
   rewrite add_group_In, IH. cbn [In]. intuition.
 Qed.
-Lemma served_or_bounced r keys k :
-  In k keys <-> In k (served_keys r keys) \/ In k (bounced_keys r keys).
+
+(* sub-batching cuts a group into consecutive pieces: nothing lost, nothing added, order kept *)
+Lemma chunk_aux_concat full w : forall ks cur acc, concat (chunk_aux full w ks cur acc) = rev cur ++ ks.
 Proof.
-  rewrite <- (group_keys_In (fst r) keys k). unfold served_keys, bounced_keys.
-  induction (group_keys (fst r) keys) as [|g gs IH]; cbn [flat_map]; [tauto|].
-  rewrite !in_app_iff, IH. destruct (snd r (fst g)); cbn [In]; tauto.
+  induction ks as [|k r IH]; intros cur acc; cbn [chunk_aux].
+  - destruct cur as [|c cur]; cbn [is_nil concat]; [reflexivity|]. rewrite app_nil_r. reflexivity.
+  - destruct (full acc); cbn [concat].
+    + rewrite IH. reflexivity.
+    + rewrite IH. cbn [rev]. rewrite <- app_assoc. reflexivity.
 Qed.
-Lemma bounced_all_served L keys : bounced_keys (L, fun _ => true) keys = [].
+Lemma chunk_concat full w ks : concat (chunk full w ks) = ks.
+Proof. unfold chunk. rewrite chunk_aux_concat. reflexivity. Qed.
+
+Definition chunker_ok (ch : list key -> list (list key)) : Prop := forall ks, concat (ch ks) = ks.
+Lemma key_chunks_ok : chunker_ok key_chunks.
+Proof. intros ks. apply chunk_concat. Qed.
+Lemma put_chunks_ok kvs : chunker_ok (put_chunks kvs).
+Proof. intros ks. apply chunk_concat. Qed.
+
+Lemma indexed_snd {A} (l : list A) : forall i, map snd (indexed i l) = l.
+Proof. induction l as [|x r IH]; intros i; cbn [indexed map snd]; [reflexivity|]. rewrite IH. reflexivity. Qed.
+
+Lemma sub_batches_In ch L keys k : chunker_ok ch ->
+  In k (flat_map snd (sub_batches ch L keys)) <-> In k keys.
 Proof.
-  unfold bounced_keys; cbn [fst snd]. induction (group_keys L keys) as [|g gs IH]; cbn [flat_map app]; [reflexivity|exact IH].
+  intros Hch. rewrite <- (group_keys_In L keys k). unfold sub_batches.
+  induction (group_keys L keys) as [|g gs IH]; cbn [flat_map]; [tauto|].
+  rewrite flat_map_app, !in_app_iff, IH.
+  assert (E : flat_map snd (map (fun ib : nat * list key => (fst g, fst ib, snd ib)) (indexed 0 (ch (snd g)))) = snd g).
+  { rewrite <- (Hch (snd g)) at 2. rewrite <- (indexed_snd (ch (snd g)) 0) at 2.
+    generalize (indexed 0 (ch (snd g))). intros l. induction l as [|x l IHl]; cbn [map flat_map concat snd]; [reflexivity|].
+    rewrite IHl. reflexivity. }
+  rewrite E. tauto.
+Qed.
+
+Lemma keys_of_partition ch r keys k :
+  In k (flat_map snd (sub_batches ch (fst r) keys)) <->
+  In k (keys_of Served ch r keys) \/ In k (keys_of Bounced ch r keys) \/ In k (keys_of Dropped ch r keys).
+Proof.
+  unfold keys_of. induction (sub_batches ch (fst r) keys) as [|b bs IH]; cbn [flat_map]; [tauto|].
+  rewrite !in_app_iff, IH. destruct (batch_outcome r b); cbn [outcome_eqb In]; tauto.
+Qed.
+Lemma no_drop_keys ch r keys : any_dropped ch r keys = false -> keys_of Dropped ch r keys = [].
+Proof.
+  unfold any_dropped, keys_of. induction (sub_batches ch (fst r) keys) as [|b bs IH]; cbn [existsb flat_map]; [reflexivity|].
+  intros H. apply orb_false_iff in H. destruct H as [H1 H2]. rewrite H1. cbn [app]. apply IH; exact H2.
+Qed.
+
+(* every requested key is in a served or a bounced sub-batch when nothing was dropped *)
+Lemma served_or_bounced ch r keys k : chunker_ok ch -> any_dropped ch r keys = false ->
+  (In k keys <-> In k (served_keys ch r keys) \/ In k (bounced_keys ch r keys)).
+Proof.
+  intros Hch Hd. rewrite <- (sub_batches_In ch (fst r) keys k Hch), keys_of_partition, (no_drop_keys _ _ _ Hd).
+  cbn [In]. tauto.
+Qed.
+Lemma keys_of_sub o ch r keys k : chunker_ok ch -> In k (keys_of o ch r keys) -> In k keys.
+Proof.
+  intros Hch H. apply (sub_batches_In ch (fst r) keys k Hch). apply keys_of_partition.
+  destruct o; tauto.
+Qed.
+
+Lemma bounced_all_served ch L keys : bounced_keys ch (L, all_served) keys = [].
+Proof.
+  unfold keys_of. induction (sub_batches ch (fst (L, all_served)) keys) as [|g gs IH]; cbn [flat_map app]; [reflexivity|exact IH].
+Qed.
+Lemma dropped_all_served ch L keys : any_dropped ch (L, all_served) keys = false.
+Proof.
+  unfold any_dropped. induction (sub_batches ch (fst (L, all_served)) keys) as [|g gs IH]; cbn [existsb]; [reflexivity|exact IH].
 Qed.
 
 (* ---------------------------------------------------------------- find_last *)
@@ -188,7 +246,7 @@ Proof.
     exfalso. exact (find_last_notin ps k E v (Hcov v eq_refl)).
 Qed.
 
-(* ---------------------------------------------------------------- batch get *)
+(* ---------------------------------------------------------------- store-side batches *)
 Lemma srv_batch_get_In st keys k v :
   In (k, v) (srv_batch_get st keys) <-> In k keys /\ srv_get st k = Some v.
 Proof.
@@ -196,45 +254,6 @@ Proof.
   - intros [x [Hx Hp]]. destruct (srv_get st x) eqn:E; [|destruct Hp]. destruct Hp as [[= <- <-]|[]]. tauto.
   - intros [Hk Hv]. exists k. split; [exact Hk|]. rewrite Hv. left; reflexivity.
 Qed.
-
-Lemma bget_rounds_pairs st : forall sched keys ps,
-  bget_rounds st sched keys = Some ps ->
-  (forall k v, In k keys -> srv_get st k = Some v -> In (k, v) ps) /\
-  (forall k v, In (k, v) ps -> srv_get st k = Some v).
-Proof.
-  induction sched as [|r sched IH]; intros keys ps; cbn [bget_rounds].
-  - destruct keys; [|discriminate]. intros [= <-]. split; [intros k v []|intros k v []].
-  - destruct keys as [|k0 keys0]; [intros [= <-]; split; [intros k v []|intros k v []]|].
-    set (keys := k0 :: keys0).
-    destruct (bget_rounds st sched (bounced_keys r keys)) as [rest|] eqn:E; [|discriminate].
-    intros [= <-]. destruct (IH _ _ E) as [I1 I2]. split.
-    + intros k v Hk Hv. apply (served_or_bounced r keys k) in Hk. apply in_app_iff. destruct Hk as [Hk|Hk].
-      * left. apply srv_batch_get_In. tauto.
-      * right. apply I1; assumption.
-    + intros k v Hp. apply in_app_iff in Hp. destruct Hp as [Hp|Hp]; [|apply I2; exact Hp].
-      apply srv_batch_get_In in Hp. tauto.
-Qed.
-
-(* BatchGet: positional, duplicates fine, absent keys -> None, any regrouping schedule *)
-Theorem batch_get_aligned st sched keys res :
-  batch_get st sched keys = Some res -> res = map (srv_get st) keys.
-Proof.
-  unfold batch_get. destruct (bget_rounds st sched keys) as [ps|] eqn:E; [|discriminate].
-  intros [= <-]. destruct (bget_rounds_pairs _ _ _ _ E) as [I1 I2].
-  unfold assemble. apply map_ext_in. intros k Hk.
-  apply find_last_partial; [exact I2|]. intros v Hv. apply I1; assumption.
-Qed.
-
-Lemma bget_rounds_final st : forall sched L keys, bget_rounds st (sched ++ [(L, fun _ => true)]) keys <> None.
-Proof.
-  induction sched as [|r sched IH]; intros L keys; cbn [app bget_rounds].
-  - destruct keys; [discriminate|]. rewrite bounced_all_served. cbn [bget_rounds]. discriminate.
-  - destruct keys; [discriminate|].
-    destruct (bget_rounds st (sched ++ [(L, fun _ => true)]) (bounced_keys r (l :: keys))) eqn:E; [discriminate|].
-    exfalso. exact (IH L _ E).
-Qed.
-
-(* ---------------------------------------------------------------- batch put *)
 Lemma st_get_batch_put kvs : forall st k,
   st_get (srv_batch_put st kvs) k = match find_last kvs k with Some e => Some e | None => st_get st k end.
 Proof.
@@ -247,105 +266,14 @@ Proof.
   unfold srv_batch_put. induction kvs as [|p r IH]; intros st Hs; cbn [fold_left]; [exact Hs|].
   apply IH. apply sorted_put; exact Hs.
 Qed.
-
-Definition round_pairs (kvs : list (list N * entry)) (ks : list key) : list (list N * entry) :=
-  flat_map (fun k => match find_last kvs k with Some e => [(k, e)] | None => [] end) ks.
-
-Lemma round_pairs_find kvs ks k :
-  find_last (round_pairs kvs ks) k = if existsb (bytes_eqb k) ks then find_last kvs k else None.
-Proof.
-  destruct (existsb (bytes_eqb k) ks) eqn:Ex.
-  - apply existsb_exists in Ex. destruct Ex as [k' [Hin Ek]]. breflect; subst k'.
-    destruct (find_last kvs k) as [e|] eqn:Ef.
-    + assert (H := find_last_functional (fun x => match find_last kvs x with Some e' => e' | None => e end) (round_pairs kvs ks) k).
-      cbv beta in H. rewrite Ef in H. apply H.
-      * intros p Hp. unfold round_pairs in Hp. apply in_flat_map in Hp. destruct Hp as [x [_ Hx]].
-        destruct (find_last kvs x) eqn:Efx; [|destruct Hx]. destruct Hx as [<-|[]]. cbn. rewrite Efx. reflexivity.
-      * exists e. unfold round_pairs. apply in_flat_map. exists k. split; [exact Hin|]. rewrite Ef. left; reflexivity.
-    + apply find_last_none. intros p Hp. unfold round_pairs in Hp. apply in_flat_map in Hp. destruct Hp as [x [_ Hx]].
-      destruct (find_last kvs x) eqn:Efx; [|destruct Hx]. destruct Hx as [<-|[]]. cbn. intros ->. congruence.
-  - apply find_last_none. intros p Hp. unfold round_pairs in Hp. apply in_flat_map in Hp. destruct Hp as [x [Hin Hx]].
-    destruct (find_last kvs x) eqn:Efx; [|destruct Hx]. destruct Hx as [<-|[]]. cbn. intros ->.
-    assert (existsb (bytes_eqb k) ks = true) by (apply existsb_exists; exists k; split; [exact Hin|apply eqb_true; reflexivity]).
-    congruence.
-Qed.
-
+Lemma srv_batch_put_app st a b : srv_batch_put st (a ++ b) = srv_batch_put (srv_batch_put st a) b.
+Proof. unfold srv_batch_put. apply fold_left_app. Qed.
 Lemma existsb_In ks k : existsb (bytes_eqb k) ks = true <-> In k ks.
 Proof.
   rewrite existsb_exists. split.
   - intros [x [Hin E]]. breflect; subst. exact Hin.
   - intros H. exists k. split; [exact H|apply eqb_true; reflexivity].
 Qed.
-
-Definition overlay (kvs : list (list N * entry)) (st : store) (k : key) : option entry :=
-  match find_last kvs k with Some e => Some e | None => st_get st k end.
-
-Lemma bput_rounds_get kvs : forall sched st keys st',
-  bput_rounds st sched kvs keys = Some st' ->
-  forall k, st_get st' k = if existsb (bytes_eqb k) keys then overlay kvs st k else st_get st k.
-Proof.
-  induction sched as [|r sched IH]; intros st keys st'; cbn [bput_rounds].
-  - destruct keys; [|discriminate]. intros [= <-] k. reflexivity.
-  - destruct keys as [|k0 keys0]; [intros [= <-] k; reflexivity|].
-    set (keys := k0 :: keys0). fold (round_pairs kvs (served_keys r keys)).
-    intros H k. rewrite (IH _ _ _ H k). unfold overlay.
-    rewrite !st_get_batch_put, round_pairs_find.
-    destruct (existsb (bytes_eqb k) keys) eqn:Ek.
-    + apply existsb_In in Ek. apply (served_or_bounced r keys k) in Ek.
-      destruct (existsb (bytes_eqb k) (bounced_keys r keys)) eqn:Eb.
-      * destruct (find_last kvs k); [reflexivity|].
-        destruct (existsb (bytes_eqb k) (served_keys r keys)); reflexivity.
-      * assert (Es : existsb (bytes_eqb k) (served_keys r keys) = true).
-        { apply existsb_In. destruct Ek as [Ek|Ek]; [exact Ek|]. apply existsb_In in Ek. congruence. }
-        rewrite Es. reflexivity.
-    + assert (Eb : existsb (bytes_eqb k) (bounced_keys r keys) = false).
-      { destruct (existsb (bytes_eqb k) (bounced_keys r keys)) eqn:E; [|reflexivity].
-        apply existsb_In in E. assert (In k keys) by (apply (served_or_bounced r keys k); right; exact E).
-        apply existsb_In in H0. congruence. }
-      assert (Es : existsb (bytes_eqb k) (served_keys r keys) = false).
-      { destruct (existsb (bytes_eqb k) (served_keys r keys)) eqn:E; [|reflexivity].
-        apply existsb_In in E. assert (In k keys) by (apply (served_or_bounced r keys k); left; exact E).
-        apply existsb_In in H0. congruence. }
-      rewrite Eb, Es. reflexivity.
-Qed.
-
-Lemma bput_rounds_sorted kvs : forall sched st keys st',
-  sorted st -> bput_rounds st sched kvs keys = Some st' -> sorted st'.
-Proof.
-  induction sched as [|r sched IH]; intros st keys st' Hs; cbn [bput_rounds].
-  - destruct keys; [|discriminate]. intros [= <-]. exact Hs.
-  - destruct keys as [|k0 keys0]; [intros [= <-]; exact Hs|].
-    intros H. eapply IH; [|exact H]. apply sorted_batch_put; exact Hs.
-Qed.
-
-(* BatchPut = the puts applied one after the other in request order (so the last value of a
-   duplicated key wins), whatever the grouping, the order of the batches and the regrouping *)
-Theorem batch_put_last_wins st sched kvs st' :
-  sorted st -> batch_put st sched kvs = Some st' ->
-  st' = srv_batch_put st kvs /\ forall k, st_get st' k = overlay kvs st k.
-Proof.
-  intros Hs H. unfold batch_put in H.
-  assert (G : forall k, st_get st' k = overlay kvs st k).
-  { intros k. rewrite (bput_rounds_get _ _ _ _ _ H k).
-    destruct (existsb (bytes_eqb k) (map fst kvs)) eqn:E; [reflexivity|].
-    unfold overlay. rewrite find_last_none; [reflexivity|].
-    intros p Hp Heq. subst k. assert (Hi : In (fst p) (map fst kvs)) by (apply in_map; exact Hp).
-    apply existsb_In in Hi. congruence. }
-  split; [|exact G].
-  apply sorted_ext.
-  - eapply bput_rounds_sorted; eassumption.
-  - apply sorted_batch_put; exact Hs.
-  - intros k. rewrite G, st_get_batch_put. reflexivity.
-Qed.
-
-Lemma bput_rounds_final kvs : forall sched L st keys, bput_rounds st (sched ++ [(L, fun _ => true)]) kvs keys <> None.
-Proof.
-  induction sched as [|r sched IH]; intros L st keys; cbn [app bput_rounds].
-  - destruct keys; [discriminate|]. rewrite bounced_all_served. cbn [bput_rounds]. discriminate.
-  - destruct keys; [discriminate|]. apply IH.
-Qed.
-
-(* ---------------------------------------------------------------- batch delete *)
 Lemma st_get_batch_delete keys : forall st k,
   st_get (srv_batch_delete st keys) k = if existsb (bytes_eqb k) keys then None else st_get st k.
 Proof.
@@ -358,50 +286,8 @@ Proof.
   unfold srv_batch_delete. induction keys as [|p r IH]; intros st Hs; cbn [fold_left]; [exact Hs|].
   apply IH. apply sorted_del; exact Hs.
 Qed.
-
-Lemma bdel_rounds_get : forall sched st keys st',
-  bdel_rounds st sched keys = Some st' ->
-  forall k, st_get st' k = if existsb (bytes_eqb k) keys then None else st_get st k.
-Proof.
-  induction sched as [|r sched IH]; intros st keys st'; cbn [bdel_rounds].
-  - destruct keys; [|discriminate]. intros [= <-] k. reflexivity.
-  - destruct keys as [|k0 keys0]; [intros [= <-] k; reflexivity|].
-    set (keys := k0 :: keys0). intros H k. rewrite (IH _ _ _ H k), st_get_batch_delete.
-    destruct (existsb (bytes_eqb k) keys) eqn:Ek.
-    + apply existsb_In in Ek. apply (served_or_bounced r keys k) in Ek.
-      destruct (existsb (bytes_eqb k) (bounced_keys r keys)) eqn:Eb; [reflexivity|].
-      assert (Es : existsb (bytes_eqb k) (served_keys r keys) = true).
-      { apply existsb_In. destruct Ek as [Ek|Ek]; [exact Ek|]. apply existsb_In in Ek. congruence. }
-      rewrite Es. reflexivity.
-    + assert (Eb : existsb (bytes_eqb k) (bounced_keys r keys) = false).
-      { destruct (existsb (bytes_eqb k) (bounced_keys r keys)) eqn:E; [|reflexivity].
-        apply existsb_In in E. assert (In k keys) by (apply (served_or_bounced r keys k); right; exact E).
-        apply existsb_In in H0. congruence. }
-      assert (Es : existsb (bytes_eqb k) (served_keys r keys) = false).
-      { destruct (existsb (bytes_eqb k) (served_keys r keys)) eqn:E; [|reflexivity].
-        apply existsb_In in E. assert (In k keys) by (apply (served_or_bounced r keys k); left; exact E).
-        apply existsb_In in H0. congruence. }
-      rewrite Eb, Es. reflexivity.
-Qed.
-Lemma bdel_rounds_sorted : forall sched st keys st',
-  sorted st -> bdel_rounds st sched keys = Some st' -> sorted st'.
-Proof.
-  induction sched as [|r sched IH]; intros st keys st' Hs; cbn [bdel_rounds].
-  - destruct keys; [|discriminate]. intros [= <-]. exact Hs.
-  - destruct keys as [|k0 keys0]; [intros [= <-]; exact Hs|].
-    intros H. eapply IH; [|exact H]. apply sorted_batch_delete; exact Hs.
-Qed.
-Theorem batch_delete_correct st sched keys st' :
-  sorted st -> bdel_rounds st sched keys = Some st' ->
-  st' = srv_batch_delete st keys /\
-  forall k, st_get st' k = if existsb (bytes_eqb k) keys then None else st_get st k.
-Proof.
-  intros Hs H. split; [|apply bdel_rounds_get with (sched := sched); exact H].
-  apply sorted_ext.
-  - eapply bdel_rounds_sorted; eassumption.
-  - apply sorted_batch_delete; exact Hs.
-  - intros k. rewrite (bdel_rounds_get _ _ _ _ H k), st_get_batch_delete. reflexivity.
-Qed.
+Definition overlay (kvs : list (list N * entry)) (st : store) (k : key) : option entry :=
+  match find_last kvs k with Some e => Some e | None => st_get st k end.
 
 (* ---------------------------------------------------------------- compare-and-swap *)
 Theorem cas_correct st k prev nv : srv_cas st k prev nv = spec_cas st k prev nv.
